@@ -1274,8 +1274,15 @@ fn conv_function(
             vec![]
         };
 
-        // What the body returned (a signal of the enclosing module, say)
-        // gives the result its clock domain.
+        // What the body assigned to an output argument, or returned (a
+        // signal of the enclosing module, say), gives it its clock domain.
+        for arg in &mut args {
+            for (path, comptime, _) in &mut arg.members {
+                if let Some((_, x)) = c.find_path(path) {
+                    comptime.clock_domain = x.clock_domain;
+                }
+            }
+        }
         let ret_domain = c
             .find_path(&VarPath::new(get_return_str()))
             .map(|(_, x)| x.clock_domain);
